@@ -104,12 +104,21 @@ TraceSignFlow ==
             IF HasPrefix(e.err, "parse:") THEN {"harness_parse"} ELSE {})
   /\ UNCHANGED <<cid, ncases, x>>
 
+(* KeyHist.tla, spec -> code: every exported history of key file edits and packagings, replayed in one process *)
+TraceKeyHist ==
+  /\ IsEv("keyhist")
+  /\ LET e == Trace[l] IN
+     Rec(Cl(e.obs = e.tlc, "C10.signed_with_the_key_in_the_key_file")
+         \cup (IF \E i \in 1..Len(e.tlc) : i <= Len(e.obs) /\ e.tlc[i] = "failure" /\ e.obs[i] \notin {"failure"}
+               THEN {"C06.no_success_when_signing_cannot_be_done"} ELSE {}), {}, {})
+  /\ UNCHANGED <<cid, ncases, x>>
+
 TraceEof ==
   /\ IsEv("eof")
   /\ PrintT(<<"VIOLSET", ToJson(viol)>>) /\ PrintT(<<"DRIFTSET", ToJson(drift)>>) /\ PrintT(<<"MERRSET", ToJson(merr)>>)
   /\ PrintT(<<"NCASES", ncases>>) /\ TLCSet(1, l)
   /\ UNCHANGED <<cid, viol, drift, merr, ncases, x>>
-TraceNext == TraceCase \/ TraceEnd \/ TraceSigEv \/ TraceRotation \/ TraceKeyShape \/ TraceSignFlow \/ TraceEof
+TraceNext == TraceCase \/ TraceEnd \/ TraceSigEv \/ TraceRotation \/ TraceKeyShape \/ TraceSignFlow \/ TraceKeyHist \/ TraceEof
 TraceSpec == TraceInit /\ [][TraceNext]_<<vars, x>>
 HighWater == TLCSet(2, l)
 Accepted == TLCGet(1) = Len(Trace)
